@@ -51,6 +51,7 @@ func Module(rt *rapid.T, cfg Cfg) (*am.Module, map[string]int) {
 		}
 	}
 	g.blockAddrGlobal()
+	g.gepGlobals()
 	g.metadata()
 	g.order()
 	for _, d := range g.M.U.Defs {
@@ -708,4 +709,122 @@ func (g *G) blockAddrGlobal() {
 	gl := &am.Global{Name: g.fresh("blockaddrs"), T: t, Linkage: "internal", Constant: true, Init: &am.Const{K: am.CArray, T: t, Elems: elems}}
 	g.M.Globals = append(g.M.Globals, gl)
 	g.feat("const/blockaddress-in-global")
+}
+
+// gepGlobals adds globals whose initialiser is a getelementptr constant expression with varied index
+// forms (any integer width, i1, inrange, constant-expression and vector indices); the global's type is
+// the reference result type of the expression.
+func (g *G) gepGlobals() {
+	n := g.rng("ngepglobals", 0, 2)
+	if g.cfg.GEPBias {
+		n = g.rng("ngepglobalsbias", 2, 5)
+	}
+	for k := 0; k < n; k++ {
+		var cands []*am.Global
+		for _, gl := range g.M.Globals {
+			if gl.T.K == am.Array || gl.T.K == am.Struct || gl.T.K == am.Named || gl.T.K == am.Vec {
+				cands = append(cands, gl)
+			}
+		}
+		if len(cands) == 0 {
+			return
+		}
+		base := cands[g.intn("gepbaseglobal", len(cands))]
+		e := &am.Expr{Op: "getelementptr", ElemT: base.T, InBounds: g.chance("cinb", 1, 2), InRange: -1,
+			Args: []*am.Const{{K: am.CGlobal, T: base.PtrType(), Ref: base}}}
+		var idx []am.GEPIndex
+		t := base.T
+		vlen := uint64(0)
+		nidx := g.rng("ncgepidx", 1, 4)
+		for i := 0; i < nidx; i++ {
+			gi := am.GEPIndex{}
+			var c *am.Const
+			if i > 0 {
+				if fs, _, isStruct := g.body(t); isStruct {
+					if len(fs) == 0 {
+						break
+					}
+					f := g.intn("cfield", len(fs))
+					c = &am.Const{K: am.CInt, T: am.I32, Int: big.NewInt(int64(f))}
+					gi.HasVal, gi.Val = true, int64(f)
+					if vlen != 0 && g.chance("csplat", 1, 2) {
+						vc := &am.Const{K: am.CVector, T: am.V(vlen, am.I32)}
+						for j := uint64(0); j < vlen; j++ {
+							vc.Elems = append(vc.Elems, c)
+						}
+						c = vc
+						gi.VecLen = vlen
+					}
+					t = fs[f]
+					e.Args = append(e.Args, c)
+					idx = append(idx, gi)
+					continue
+				} else if t.K != am.Array && t.K != am.Vec {
+					break
+				}
+				t = t.Elem
+			}
+			it := []*am.Type{am.I64, am.I32, am.I8, am.I16, am.I1, am.I(128)}[g.intn("cgepit", 6)]
+			switch {
+			case vlen == 0 && g.chance("cnewvec", 1, 4):
+				vlen = []uint64{2, 3, 4}[g.intn("cvl", 3)]
+				c = g.vecIndexConst(am.V(vlen, it))
+				gi.VecLen = vlen
+			case vlen != 0 && g.chance("cvecidx", 1, 2):
+				c = g.vecIndexConst(am.V(vlen, it))
+				gi.VecLen = vlen
+			default:
+				c = g.constOf(it, 1)
+			}
+			if i > 0 && e.InRange < 0 && vlen == 0 && g.chance("inrange", 1, 6) && !g.off("gep-inrange") {
+				e.InRange = len(e.Args)
+			}
+			e.Args = append(e.Args, c)
+			idx = append(idx, gi)
+		}
+		rt, err := am.GEPType(g.M.U, base.T, base.PtrType(), idx)
+		if err != nil {
+			continue
+		}
+		gl := &am.Global{Name: g.fresh("gepc"), T: rt, Linkage: "internal", Init: &am.Const{K: am.CExpr, T: rt, Expr: e}}
+		g.M.Globals = append(g.M.Globals, gl)
+		g.feat("constexpr/getelementptr-rich")
+		if vlen != 0 {
+			g.feat("gep/vector-constexpr")
+		}
+	}
+}
+
+// vecIndexConst draws a constant vector index in each of its forms: literal, splat, zeroinitializer, undef, poison.
+func (g *G) vecIndexConst(t *am.Type) *am.Const {
+	switch g.intn("vecidxform", 6) {
+	case 0:
+		return &am.Const{K: am.CZero, T: t}
+	case 1:
+		return &am.Const{K: am.CUndef, T: t}
+	case 2:
+		return &am.Const{K: am.CPoison, T: t}
+	case 3: // splat
+		e := g.intConst(t.Elem)
+		c := &am.Const{K: am.CVector, T: t}
+		for i := uint64(0); i < t.Len; i++ {
+			c.Elems = append(c.Elems, e)
+		}
+		return c
+	case 4: // literal with an undef element
+		c := &am.Const{K: am.CVector, T: t}
+		for i := uint64(0); i < t.Len; i++ {
+			if i == 0 {
+				c.Elems = append(c.Elems, &am.Const{K: am.CUndef, T: t.Elem})
+			} else {
+				c.Elems = append(c.Elems, g.intConst(t.Elem))
+			}
+		}
+		return c
+	}
+	c := &am.Const{K: am.CVector, T: t}
+	for i := uint64(0); i < t.Len; i++ {
+		c.Elems = append(c.Elems, g.intConst(t.Elem))
+	}
+	return c
 }
